@@ -1,1 +1,22 @@
-From SF Require Import Base.Prelude Unsized.Types Unsized.Parse Properties.C05.
+(* Pinned statements of C05: re-checked on every run. *)
+From SF Require Import Base.Prelude Unsized.Types Unsized.Parse Unsized.Proofs.EncodeParse Properties.C05.
+
+Check (C05_encode_size :
+ forall t v, wf t v = true -> zlen (encode t v) = byte_size t v).
+Check (C05_roundtrip :
+  forall ovf t v, ty_ok true t = true -> wf t v = true -> parse ovf t (encode t v) = Ok (v, byte_size t v)).
+Check (C05_roundtrip_prefix :
+  forall ovf t v tl, ty_ok false t = true -> wf t v = true -> parse ovf t (encode t v ++ tl) = Ok (v, byte_size t v)).
+Check (C05_roundtrip_general :
+  forall ovf t last v tl, ty_ok last t = true -> wf t v = true -> (last = true -> tl = []) ->
+    extent ovf t (encode t v ++ tl) = Ok (zlen (encode t v)) /\ owned ovf t (encode t v ++ tl) = Ok v).
+Check (C05_discriminant_roundtrip :
+  forall ovf d t v, (0 < length d)%nat -> bytes_ok d = true -> ty_ok true t = true -> wf t v = true ->
+    parse ovf (TStruct [TFixed (FAny (length d)); t]) (d ++ encode t v)
+    = Ok (VStruct [VBytes d; v], Z.of_nat (length d) + byte_size t v)).
+
+Print Assumptions C05_encode_size.
+Print Assumptions C05_roundtrip.
+Print Assumptions C05_roundtrip_prefix.
+Print Assumptions C05_roundtrip_general.
+Print Assumptions C05_discriminant_roundtrip.
